@@ -165,12 +165,17 @@ SolverBad(x) ==
     \/ x.k = "tt" /\ \E y0 \in TS : y0.cx = x.cx /\ Len(y0.I) = Len(x.I) /\ ~TorchCompatible(x.I, y0.I)
                                      /\ C("hadamard", "shape", x, [y |-> Second(y0)], FALSE, ~TorchCompatible(x.I, y0.I))
 
+\* tangent-space projection of a tensor of another shape (any difference, singleton modes included) or kind
+ManifoldBad(x) ==
+    \/ \E y0 \in TS \cup MS : y0.cx = x.cx /\ y0.k = x.k /\ Len(y0.I) = Len(x.I) /\ (y0.I # x.I \/ y0.J # x.J)
+                              /\ C("projection", "shape", x, [y |-> Second(y0)], FALSE, TRUE)
+    \/ \E y0 \in TS \cup MS : y0.cx = x.cx /\ y0.k # x.k /\ C("projection", "kind", x, [y |-> Second(y0)], TRUE, TRUE)
 Next ==
     /\ case.op = "init"
     /\ LET x == case.x IN
        \/ ShapeMismatchTT(x) \/ ShapeMismatchTTM(x) \/ KindMismatch(x) \/ MatmulMismatch(x) \/ WrongType(x)
        \/ WrongKindUnary(x) \/ AxisRange(x) \/ PermuteBad(x) \/ ReshapeBad(x) \/ IndexBad(x) \/ DotBad(x) \/ CatBad(x)
-       \/ CtorBad(x) \/ RandomBad(x) \/ SolverBad(x)
+       \/ CtorBad(x) \/ RandomBad(x) \/ SolverBad(x) \/ ManifoldBad(x)
 
 Spec == Init /\ [][Next]_vars
 
